@@ -129,6 +129,8 @@ static void bufs_switch(int idx)
 {
 	struct buf tmp;
 	bufs_save();
+	if (bufs[0].lb)		/* the rest of the command belongs to another buffer */
+		lbuf_modified(bufs[0].lb);
 	memcpy(&tmp, &bufs[idx], sizeof(tmp));
 	memmove(&bufs[1], &bufs[0], sizeof(tmp) * idx);
 	memcpy(&bufs[0], &tmp, sizeof(tmp));
